@@ -134,6 +134,15 @@ def compare_results(net_a, net_b, atol=1e-10, rtol=1e-9, index_map=None, skip_co
                 both = stagnant & ~np.isnan(va) & ~np.isnan(vb)
                 va[both] = 0.0
                 vb[both] = 0.0
+            if stagnant is not None and col in ("lambda", "reynolds"):
+                # friction factor / Reynolds number of a branch without flow are 0/0-type quantities (64/Re): not compared when
+                # either run has |mdot| < 1e-4 kg/s (NaN from an earlier mask_zero_flow_friction counts as "not compared" too)
+                va, vb = va.copy(), vb.copy()
+                low = (ma < 1e-4) | (mb < 1e-4) | np.isnan(va) | np.isnan(vb)
+                real_nan = np.isnan(ma) | np.isnan(mb)
+                low &= ~real_nan
+                va[low] = 0.0
+                vb[low] = 0.0
             nan_a, nan_b = np.isnan(va), np.isnan(vb)
             at = atol
             if flow_scale_tol is not None and col.startswith(FLOW_COLS):
